@@ -170,7 +170,7 @@ func directed(r *rand.Rand, idx int) *ccase {
 	}
 	c := &ccase{Idx: idx, Client: "normal"}
 	kv := []string{"query", q, "start", fmt.Sprint(rdcat.FromS * 1e9), "end", fmt.Sprint(rdcat.ToS * 1e9), "step", "5"}
-	scenario := []string{"limit-early", "db-error-midway", "client-leaves", "plain", "limit-early-forward", "limit-boundary", "step-boundary"}[r.Intn(7)]
+	scenario := []string{"limit-early", "db-error-midway", "client-leaves", "plain", "limit-early-forward", "limit-boundary", "step-boundary", "no-step-long-window"}[r.Intn(8)]
 	c.DB = dbPlan{Target: 0, Mode: "ok", Shape: []string{"batch", "many", "many"}[r.Intn(3)]}
 	var specials []string
 	switch scenario {
@@ -195,6 +195,14 @@ func directed(r *rand.Rand, idx int) *ccase {
 		}
 		kv = append(kv, "limit", "5000")
 		specials = []string{"step=boundary:" + v}
+	case "no-step-long-window":
+		// a metric (or log) query over years with the step left out: whatever the default step is, the work must stay
+		// bounded
+		q = []string{`sum by (a) (rate({a="b"}[1m]))`, `rate({a="b"}[5m])`, `count_over_time({a="b"} | json [1h])`, q}[r.Intn(4)]
+		start := []string{"0", "1", fmt.Sprint((rdcat.ToS - 5*365*86400) * 1e9), fmt.Sprint((rdcat.ToS - 90*86400) * 1e9)}[r.Intn(4)]
+		kv = []string{"query", q, "start", start, "end", fmt.Sprint(rdcat.ToS * 1e9), "limit", "100"}
+		shape = "metric-go"
+		specials = []string{"step=absent", "window=long"}
 	case "db-error-midway":
 		kv = append(kv, "limit", "5000")
 		c.DB.Mode = []string{"err-row", "cancel-row"}[r.Intn(2)]
@@ -210,7 +218,7 @@ func directed(r *rand.Rand, idx int) *ccase {
 	}
 	path := "/loki/api/v1/query_range"
 	ep := "loki.query_range"
-	if r.Intn(4) == 0 || strings.HasSuffix(scenario, "-boundary") && r.Intn(2) == 0 {
+	if scenario != "no-step-long-window" && (r.Intn(4) == 0 || strings.HasSuffix(scenario, "-boundary") && r.Intn(2) == 0) {
 		path, ep = "/loki/api/v1/query", "loki.query"
 		stepV := "5"
 		for i := 0; i+1 < len(kv); i += 2 {
